@@ -11,7 +11,7 @@
      Elems es  Array / List / Table / Tree (and the thread's TLS Table): the Mark instance
                hands every embedded element to the callback (GC_Mark_And_Recurse)
      Items ps  heap Tuple: Tuple_Mark hands every item POINTER to the callback
-     Leaf      Int Float String Type File Process Function: GC_Recurse returns at once
+     NoPtr      Int Float String Type File Process Function: GC_Recurse returns at once
    Registered objects (new/alloc/copy) and raw objects (new_raw, malloc'ed, not registered)
    are both heap nodes; the registry says which is which. *)
 From Coq Require Import List Arith NArith PArith Bool FMapPositive.
@@ -23,7 +23,7 @@ Inductive contents : Type :=
 | Words (ws : list word)
 | Elems (es : list contents)
 | Items (ps : list word)
-| Leaf.
+| NoPtr.
 
 Inductive outcome (A : Type) : Type :=
 | Ok (a : A)
@@ -91,7 +91,7 @@ Section Graph.
     | Words _ => []
     | Elems es => flat_map item_ptrs es
     | Items ps => ps
-    | Leaf => []
+    | NoPtr => []
     end.
 
   (* every item pointer of a Tuple points to an object the heap knows (else the C code reads
@@ -136,11 +136,11 @@ Definition mk_contents (k : kind) (ptrs : list word) : contents :=
   match k with
   | KStruct | KRef | KBox => Words ptrs
   | KArray | KList => Elems (map (fun p => Words [p]) ptrs)                  (* embedded Ref *)
-  | KTable | KTree => Elems (flat_map (fun p => [Leaf; Words [p]]) ptrs)     (* Int key, Ref value *)
+  | KTable | KTree => Elems (flat_map (fun p => [NoPtr; Words [p]]) ptrs)     (* Int key, Ref value *)
   | KTuple => Items ptrs
-  | KLeaf => Leaf
+  | KLeaf => NoPtr
   end.
 
 (* the thread's TLS Table (String -> Ref): keys are leaves, values embedded Refs *)
 Definition mk_tls (vals : list word) : list contents :=
-  flat_map (fun p => [Leaf; Words [p]]) vals.
+  flat_map (fun p => [NoPtr; Words [p]]) vals.
